@@ -292,8 +292,8 @@ theorem bitsOfByte_pow (k : Nat) (hk : k < 8) :
   exact this ⟨k, hk⟩
 
 /-- Flipping one bit is a burst. -/
-theorem isBurst_flipPattern (n i k : Nat) (hi : i < n) (hk : k < 8) : IsBurst (bitsOf (flipPattern n i k)) := by
-  refine ⟨8 * i + k, [true], (7 - k) + 8 * (n - (i + 1)), ?_, by simp, by simp⟩
+theorem bitsOf_flipPattern (n i k : Nat) (hi : i < n) (hk : k < 8) :
+    bitsOf (flipPattern n i k) = zeros (8 * i + k) ++ [true] ++ zeros ((7 - k) + 8 * (n - (i + 1))) := by
   unfold flipPattern
   rw [List.set_eq_take_append_cons_drop, if_pos (by simpa using hi)]
   rw [List.take_replicate, List.drop_replicate, Nat.min_eq_left (by omega),
@@ -302,5 +302,39 @@ theorem isBurst_flipPattern (n i k : Nat) (hi : i < n) (hk : k < 8) : IsBurst (b
   show zeros (8 * i) ++ (bitsOfByte _ ++ []  ++ _) = _
   rw [bitsOfByte_pow k hk]
   simp only [List.append_nil, List.append_assoc, List.cons_append, List.nil_append, ← zeros_append]
+
+theorem isBurst_flipPattern (n i k : Nat) (hi : i < n) (hk : k < 8) : IsBurst (bitsOf (flipPattern n i k)) :=
+  ⟨8 * i + k, [true], (7 - k) + 8 * (n - (i + 1)), bitsOf_flipPattern n i k hi hk, by simp, by simp⟩
+
+theorem flipPattern_length (n i k : Nat) : (flipPattern n i k).length = n := by simp [flipPattern]
+
+theorem crcBits_single_true (c : W32) : crcBits c [true] = crcShift (c ^^^ 1#32) := rfl
+
+theorem crcShift_one : crcShift 1#32 = crcPoly := by decide
+
+theorem xor_eq_zero_iff {a b : W32} : a ^^^ b = 0#32 ↔ a = b := by
+  constructor
+  · intro h
+    have : a ^^^ b ^^^ b = 0#32 ^^^ b := by rw [h]
+    rwa [BitVec.xor_assoc, BitVec.xor_self, BitVec.xor_zero, BitVec.zero_xor] at this
+  · intro h; rw [h, BitVec.xor_self]
+
+theorem crcIter_add (a b : Nat) (v : W32) : crcIter (a + b) v = crcIter b (crcIter a v) := by
+  induction a generalizing v with
+  | zero => simp [crcIter]
+  | succ a ih => rw [Nat.add_right_comm]; exact ih (crcShift v)
+
+theorem crcShift_crcIter (k : Nat) (v : W32) : crcShift (crcIter k v) = crcIter k (crcShift v) := by
+  have h1 := crcIter_add k 1 v
+  have h2 := crcIter_add 1 k v
+  rw [Nat.add_comm] at h2
+  rw [h1] at h2
+  exact h2
+
+/-- Linear remainder of a single flipped bit followed by `q` further bits: `q + 1` steps from `1`. -/
+theorem crcLin_flipPattern (n i k : Nat) (hi : i < n) (hk : k < 8) :
+    crcLin (flipPattern n i k) = crcIter ((7 - k) + 8 * (n - (i + 1))) crcPoly := by
+  rw [crcLin_eq_bits, bitsOf_flipPattern n i k hi hk, crcBits_append, crcBits_append, crcBits_zeros,
+    crcBits_zeros, crcIter_zero, crcBits_single_true, BitVec.zero_xor, crcShift_one]
 
 end FeVerif
